@@ -56,6 +56,7 @@ type Monitors struct {
 	storedIDs    map[string]bool // payload ids ever stored on any server
 	taint        string
 	lease        *leaseState
+	electCommit  map[[2]int]uint64 // commit index of a server at the instant it became leader
 	convFlagged  bool
 	convReached  bool
 	isSeen       map[string]*isRec
@@ -72,7 +73,7 @@ type Monitors struct {
 func newMonitors(w *World) *Monitors {
 	return &Monitors{w: w, agreed: map[uint64]fact{}, leaders: map[uint64]int{}, senders: map[uint64]int{}, streams: map[[2]int]*fsmStream{},
 		lastCommit: map[[2]int]uint64{}, lastTerm: map[int]uint64{}, grants: map[grantKey]string{}, notify: map[[2]int][]bool{}, leadGains: map[[2]int]int{},
-		storedIDs: map[string]bool{}, transitions: map[[2]int]int{}, wasLeader: map[[2]int]bool{}, leaderAt: map[uint64]leaderRec{}, restoreFloor: map[[2]int]uint64{}, floorByData: map[string]uint64{}, isSeen: map[string]*isRec{}}
+		storedIDs: map[string]bool{}, transitions: map[[2]int]int{}, wasLeader: map[[2]int]bool{}, leaderAt: map[uint64]leaderRec{}, restoreFloor: map[[2]int]uint64{}, floorByData: map[string]uint64{}, isSeen: map[string]*isRec{}, electCommit: map[[2]int]uint64{}}
 }
 
 // rootCause records a violation that is the origin of others: every later
@@ -253,6 +254,7 @@ func (m *Monitors) OnObservation(node, inc int, o *raft.Observation) {
 				m.fail("C01", "two-leaders-one-term", "n%d and n%d both became leader in term %d", prev, node, term)
 			}
 			m.leaders[term] = node
+			m.electCommit[[2]int{node, inc}] = o.Raft.CommitIndex()
 			if _, ok := m.leaderAt[term]; !ok {
 				m.leaderAt[term] = leaderRec{node, m.w.events}
 			}
@@ -681,7 +683,8 @@ func (m *Monitors) AtQuiescent() {
 // checkLeaderCommit: C05 at a leader's report of commit index ci.
 func (m *Monitors) checkLeaderCommit(n *Node, ci uint64) {
 	d := n.r.VerifDump()
-	if d.LeaderStartIndex == 0 || ci < d.LeaderStartIndex {
+	// only commit indexes this server computed itself as leader: those above what it had when it was elected
+	if base, ok := m.electCommit[[2]int{n.id, n.inc}]; !ok || ci <= base {
 		return
 	}
 	l := n.store.Peek(ci)
@@ -916,9 +919,15 @@ func (m *Monitors) unknownViolations() int {
 	}
 	n := 0
 	for _, v := range m.viol {
+		if currentProp != "" && v.Prop != currentProp {
+			continue // a check decides its own property: the execution goes on past violations of others
+		}
 		if !globalKnown.Matches(v) {
 			n++
 		}
 	}
 	return n
 }
+
+// currentProp is the property the running check decides ("" = all).
+var currentProp string
